@@ -89,7 +89,7 @@ Example C01_exception_leaves_loop :
 Proof. exact XTop.escaping_ok. Qed.
 
 (** Closures (C01C): the first-order core extended with fn* (one arity, any number of
-    parameters, shadowing of captured names by parameters and by inner let-bindings) and the invocation of
+    parameters, optionally named so that the body can call the function itself, shadowing of captured names by parameters and by inner let-bindings) and the invocation of
     function values.  Python function values refer to their defining frame BY REFERENCE (it is
     read when the function is called); the theorem shows that for every closed program of the
     fragment -- closures returned, stored, passed around and called any number of times -- the
@@ -110,6 +110,12 @@ Example C01_closures_keep_their_bindings :
   CGen.ceval_obs 40 CTop.counters = Some (FLisp.OVec [FLisp.OInt 1; FLisp.OInt 2], []) /\
   CGen.crun 40 CTop.counters = CGen.ceval_obs 40 CTop.counters.
 Proof. exact CTop.counters_ok. Qed.
+Example C01_named_fn_recursion :
+  CGen.hazard_free CTop.recursive = true /\
+  CGen.ceval_obs 60 CTop.recursive =
+    Some (FLisp.OVec [FLisp.OInt 0; FLisp.OInt 1; FLisp.OInt 2], [FLisp.OInt 0; FLisp.OInt 1; FLisp.OInt 2]) /\
+  CGen.crun 60 CTop.recursive = CGen.ceval_obs 60 CTop.recursive.
+Proof. exact CTop.recursive_ok. Qed.
 Example C01_rebinding_does_not_reach_closure :
   CGen.hazard_free CTop.rebind = true /\
   CGen.ceval_obs 40 CTop.rebind = Some (FLisp.OVec [FLisp.OInt 1; FLisp.OInt 2], []) /\
@@ -163,3 +169,4 @@ Print Assumptions C01_compile_correct_closures_partial.
 Print Assumptions C01_closure_simulation.
 Print Assumptions C01_closures_keep_their_bindings.
 Print Assumptions C01_rebinding_does_not_reach_closure.
+Print Assumptions C01_named_fn_recursion.
